@@ -12,7 +12,7 @@ LEVEL = 'exploration'
 RULE = ('1-3 generated interfaces, each 0-6 methods / signals / properties whose signatures are concatenations of 0-4 '
         'complete types from the full grammar (containers, nested structs, dict entries, unix fds), all four '
         '(readable, writeable) combinations and three change-notification modes, declared on a DBusObject subclass (or '
-        'split over base and subclass) exported at a generated path alone or with children (child nodes are the subject of C16); some interfaces are '
+        'split over base and subclass, or with the second group on a plain mixin listed before / after the base) exported at a generated path alone or with children (child nodes are the subject of C16); some interfaces are '
         'defined step by step (addMethod / addSignal / addProperty) with the cached XML read in between, and some get '
         'temporary members that are deleted again (delMethod / delSignal / delProperty, each kind last in turn). oracle: '
         'getInterfacesFromXML(generateIntrospectionXML(..), replace) yields for every declared interface one with the '
@@ -66,7 +66,14 @@ def _build(case):
     k = case.get('split', len(ifs))
     Base = type('IBase', (O.DBusObject,), {'dbusInterfaces': ifs[:k]})
     ns = {'dbusInterfaces': ifs[k:]} if ifs[k:] else {}
-    Sub = type('ISub', (Base,), ns)
+    mix = case.get('mixin', 0)
+    if mix and ifs[k:]:
+        # the second group of interfaces comes from a plain mixin (not derived from DBusObject), listed after or before
+        # the DBusObject-derived base: an object's interfaces are those of every class in its MRO
+        Mixin = type('IMixin', (object,), ns)
+        Sub = type('ISub', (Base, Mixin) if mix == 1 else (Mixin, Base), {})
+    else:
+        Sub = type('ISub', (Base,), ns)
     return ifs, Sub
 
 
@@ -270,7 +277,8 @@ def gen_case(draw, tier):
         kids = sorted(set(kids))
     return {'ifaces': ifaces, 'split': draw(st.integers(0, len(ifaces))), 'path': path, 'children': kids,
             'replace': draw(st.booleans()), 'preregister': draw(st.integers(0, 2)) == 0,
-            'incremental': draw(st.sampled_from([0, 0, 0, 1, 1, 2, 3, 4]))}
+            'incremental': draw(st.sampled_from([0, 0, 0, 1, 1, 2, 3, 4])),
+            'mixin': draw(st.sampled_from([0, 0, 1, 2]))}
 
 
 SUBCHECKS = [
